@@ -17,8 +17,7 @@ from ..dataflow import single_assign_subst, target_names, mutations_in, linform,
 from ..solver_model import solver_function, Sweep
 from ..cfg import raised_name, exc_is_a, handler_types, atomic_facts
 
-TECHNIQUE = ('static analysis: sign-domain evaluation of denominators, write-set computation through `self` vs the deep copy, '
-             'dominance of the raising guard, path check from "bad" to the k=0 install')
+TECHNIQUE = ('static analysis on the flattened search: sign-domain evaluation of denominators, write-set computation through `self` vs the (deep or hand-built) copy, product search per pass of the acceptance loop (recorded / installed / last tolerance outcome) and from entry to the normal return, set agreement of tested and installed variables')
 EXPLANATION = (
     'Every tolerance quotient with an absolute-difference numerator must have a provably non-negative denominator (so a '
     'negative-valued series cannot pass the relative test by sign); the search may write through self only to '
